@@ -27,6 +27,7 @@ on, on models tied to the code; the property itself is decided on real execution
 | capture lists are never shared between query states, the pool respects its limit | `capture_acquire_ok`, `capture_release_ok`, `capture_reset_ok` |
 | external scanner states: inline ≤ 24 bytes, heap otherwise; allocations = frees | `ess_roundtrip` |
 | an exhausted cursor into a `TSRange` array is never dereferenced: `ts_range_array_get_changed_ranges` (after the fix; the loop as found reads `ranges[count]`, see `changed_ranges_asis_reads_out_of_bounds`) and `ts_lexer__advance` (after the fix; as found: `lexer_advance_asis_reads_out_of_bounds`) | `changed_ranges_reads_in_bounds`, `lexer_advance_reads_in_bounds` |
+| `capture_ids[MAX_STEP_CAPTURE_COUNT]` of a query step is never overrun | `step_captures_bounded` (tied by the `bits` probe: slots, surplus captures dropped, `depth` untouched) |
 | `iterators_bounded`, `children_before_header` | OPEN (not ported) |
 -/
 namespace TsVerif.C07
@@ -430,6 +431,23 @@ theorem ess_roundtrip (data : List Nat) :
     ((Ess.init data).1.copy).1.data = data := by
   unfold Ess.init
   by_cases h : data.length > ESS_INLINE <;> simp [h, Ess.data, Ess.eq, Ess.delete, Ess.copy]
+
+/-- A query step never holds more capture ids than its array has slots, whatever is added. -/
+theorem step_captures_bounded (cs : List Nat) :
+    (cs.foldl addCapture []).length ≤ maxStepCaptureCount := by
+  suffices h : ∀ (acc : List Nat), acc.length ≤ maxStepCaptureCount →
+      (cs.foldl addCapture acc).length ≤ maxStepCaptureCount from h [] (by simp)
+  induction cs with
+  | nil => intro acc h; simpa using h
+  | cons c cs ih =>
+    intro acc h
+    apply ih
+    unfold addCapture
+    split
+    · simp; omega
+    · exact h
+
+example : [1, 2, 3, 4, 5, 6].foldl addCapture [] = [1, 2, 3] := by decide
 
 /-! ## Range cursors (wave 5: two out-of-bounds reads found by other properties' sanitizer runs) -/
 
